@@ -855,7 +855,10 @@ def search(ctx):
         else:
             _os.environ["TZ"] = old_tz
         _time.tzset()
-    out += E2E.search(ctx)
+    try:
+        out += E2E.search(ctx)
+    except Exception as e:  # noqa: BLE001   (what was found so far is not lost)
+        ctx.notes.append(f"end-to-end glue search raised {e!r}")
     return out
 
 
